@@ -1,17 +1,17 @@
 SPECIFICATION Spec
 CONSTANTS
-  Configs <- MCConfigsQuick
+  Configs <- MCConfigsA
   StartTimes = {1600}
-  MaxRes = 2
-  MaxQ = 5
+  MaxRes = 1
+  MaxQ = 3
   MaxBack = 1
   TicksPerSec = 16
   MaxChain = 16
   BackoffTable <- MCBackoff
-  Requests <- MCRequests
-  IdleAdvances = {0, 32, 96}
-  Outcomes <- MCOutcomes
-  Advances <- MCAdvances
+  Requests <- MCRequests1
+  IdleAdvances = {0}
+  Outcomes <- MCOutcomesA
+  Advances <- MCAdvancesA
 INVARIANT TypeOK
 INVARIANT WithinLifetime
 INVARIANT BrokenNeverAskedAgain
